@@ -73,3 +73,9 @@ func init() {
 		Assume: []string{"-tags tinywasm built natively for linux/amd64 exercises the same Go code as the TinyGo/wasm artefact (compiler and syscall/js glue are out of scope)", "error texts are not compared; bytes are compared only when both builds accept"},
 		Rule: "cases: degenerate list, every labeled forest up to the node bound in 2-6 spellings, every single-line malformation injection M1-M6 on forests up to 4/5 nodes, seeded random well-formed and grammar-mutated documents, raw byte strings; each x {text default, 4 custom branch tuples incl. empty strings, JSON, dry-run with 4 extension lists}; one evaluation = the same case sent to the default-build driver and the tinywasm-build driver, outcomes compared; distinct key = hash(document bytes, mode); non-trivial = non-empty document"}
 }
+
+func init() {
+	props["C14"] = propCfg{Level: "fault_enumeration",
+		Assume: []string{"a failing io.Reader keeps failing; a failing io.Writer keeps failing after its first failure", "heading-root documents are not run in massive mode here (known finding of C10)"},
+		Rule: "fault enumeration: for each document of a seeded corpus (48 quick / 1600 thorough, <= ~300 bytes) the reader fails with a sentinel after EVERY byte offset 0..len (7 From-Markdown entry points x simple/massive; filesystem entry points at a quarter of the offsets) and the writer fails at EVERY write index of the fault-free run, as plain error and as short write (text, custom branch, JSON, YAML, TOML, dry-run, non-iterator x From-Markdown/From-Root x simple/massive); one evaluation = one real call with one injected fault; distinct key = hash(document, entry/mode, fault kind, fault index); every case is non-trivial (a fault is injected; 'failed_writes'/'reader Failed' are measured, a fault that never took effect is inconclusive)"}
+}
